@@ -172,7 +172,18 @@ def run(ck):
                     have.add(ret[1][1])
                 if not {"id", "version"} <= have:
                     bad = sorted(have)
-        ck.verdict(bad is None and npaths > 0, "1", "T4-guarded-by", ss, "true-only-if-id-and-version-equal", "every path on which same_source_as can answer true has compared both `id` and `version` for equality (%d paths)" % npaths, "same_source_as can answer true after comparing only %s: the slot generation is not part of the identity check, so a token of a removed source matches the slot's next occupant" % bad, site=ss.where())
+        if not (bad is None and npaths > 0):
+            # written another way (`self.forget_sub_id() == other.forget_sub_id()`): decide it by evaluation on every
+            # equal / different pattern of the three fields - true exactly when id and version agree, whatever the sub-ids
+            from props import C20 as _C20
+
+            flds = _C20._tok_fields(f)
+            sem = _C20.semantic_token_equality(f, ss, flds, want=lambda pat: not pat.get("id") and not pat.get("version")) if sorted(flds) == ["id", "sub_id", "version"] else None
+            if sem is not None:
+                ck.verdict(sem == "", "1", "T4-guarded-by", ss, "true-only-if-id-and-version-equal", "evaluated on every equal/different pattern of (id, version, sub_id), both argument orders: true exactly when id and version agree", "same_source_as is wrong: %s (a sub-token is not recognised as belonging to its source, or a token of another generation / slot is)" % sem, site=ss.where())
+                bad, npaths = None, -1
+        if npaths != -1:
+          ck.verdict(bad is None and npaths > 0, "1", "T4-guarded-by", ss, "true-only-if-id-and-version-equal", "every path on which same_source_as can answer true has compared both `id` and `version` for equality (%d paths)" % npaths, "same_source_as can answer true after comparing only %s: the slot generation is not part of the identity check, so a token of a removed source matches the slot's next occupant" % bad, site=ss.where())
 
     # ---- clause 2: who writes the `source` field of a slot -------------------------------------------
     writers = set()
@@ -404,3 +415,8 @@ def run(ck):
     import importlib as _il8
     _m8 = lambda n: _il8.import_module('props.' + n)
     _c8.import_results(ck, _m8("C07"), "4", "DispatcherInner", "5")  # the dispatcher state protocol: a disabled source stays silent across update()
+    # ---- shared clauses demonstrated by the twin round (seeding round 10) ------------------------------------------
+    from props import common as _c10
+    import importlib as _il10
+    _m10 = lambda n: _il10.import_module('props.' + n)
+    _c10.dispatch_infra(ck, "5")  # a source that is not busy never answers "busy": update() on a disabled source would park a Reregister that lands on another source
